@@ -467,6 +467,12 @@ void group_op(Ctx& cx, G g, Flat)
         rs.has_addr = true;
         rs.addr_off = cx.off(sbepp::addressof(g));
         break;
+    case G_INFO:
+        rs.has_addr = true;
+        rs.addr_off = cx.off(sbepp::addressof(g));
+        rs.has_view = true;
+        rs.vsize = (u64)g.size();
+        break;
     case G_SIZE:
         rs.has_bits = true;
         rs.bits = (u64)g.size();
@@ -621,6 +627,114 @@ void group_op(Ctx& cx, G g, Flat)
 
 // --------------------------------------------------------------- data ops
 template<class D>
+u64 data_hash(D d)
+{
+    u64 h = 1469598103934665603ULL;
+    for(auto it = d.begin(); it != d.end(); ++it) h = (h ^ (u8)*it) * 1099511628211ULL;
+    return h;
+}
+
+// single-pass source for insert(pos, first, last) / assign(first, last)
+struct CountingInputIt
+{
+    using iterator_category = std::input_iterator_tag;
+    using value_type = unsigned char;
+    using difference_type = std::ptrdiff_t;
+    using pointer = const unsigned char*;
+    using reference = unsigned char;
+    u64 i;
+    u8 base;
+    unsigned char operator*() const { return (unsigned char)(base + i); }
+    CountingInputIt& operator++() { ++i; return *this; }
+    CountingInputIt operator++(int) { auto t = *this; ++i; return t; }
+    bool operator==(const CountingInputIt& o) const { return i == o.i; }
+    bool operator!=(const CountingInputIt& o) const { return i != o.i; }
+};
+
+// A scripted history on a generated <data> member (C13 through the accessors sbeppc emits: the
+// length type, byte order and byte type are whatever the schema compiler chose for this member).
+// The checker keeps every argument valid for a std::vector of the model's size; after the script
+// the checker reads prefix and payload straight from the buffer. Returned iterators are reported
+// as one rolling hash of their offsets from begin().
+template<class D>
+void data_history(Ctx& cx, D d)
+{
+    const Req& rq = *cx.rq;
+    Res& rs = *cx.rs;
+    using size_type = typename D::size_type;
+    using V = typename D::value_type;
+    if(!rq.dops) return;
+    u64 ih = 0;
+    auto note = [&](typename D::iterator it) { ih = ih * 1000003ULL + (u64)(it - d.begin()) + 1; };
+    for(const DataOp& o : *rq.dops)
+    {
+        const V v = static_cast<V>(o.v);
+        switch(o.kind)
+        {
+        case DO_PUSH_BACK: d.push_back(v); break;
+        case DO_POP_BACK: d.pop_back(); break;
+        case DO_INSERT1: note(d.insert(d.begin() + (std::ptrdiff_t)o.a, v)); break;
+        case DO_INSERTN: note(d.insert(d.begin() + (std::ptrdiff_t)o.a, (size_type)o.b, v)); break;
+        case DO_INSERT_RANGE:
+            if(o.v & 1)
+                note(d.insert(d.begin() + (std::ptrdiff_t)o.a, CountingInputIt{0, o.v}, CountingInputIt{o.b, o.v}));
+            else
+            {
+                V tmp[64];
+                const std::size_t k = (std::size_t)(o.b < 64 ? o.b : 64);
+                for(std::size_t i = 0; i < k; i++) tmp[i] = static_cast<V>(o.v + i);
+                note(d.insert(d.begin() + (std::ptrdiff_t)o.a, tmp, tmp + k));
+            }
+            break;
+        case DO_INSERT_IL: note(d.insert(d.begin() + (std::ptrdiff_t)o.a, {v, static_cast<V>(o.v + 1), static_cast<V>(o.v + 2)})); break;
+        case DO_ERASE1: note(d.erase(d.begin() + (std::ptrdiff_t)o.a)); break;
+        case DO_ERASE2: note(d.erase(d.begin() + (std::ptrdiff_t)o.a, d.begin() + (std::ptrdiff_t)(o.a + o.b))); break;
+        case DO_RESIZE: d.resize((size_type)o.a); break;
+        case DO_RESIZE_V: d.resize((size_type)o.a, v); break;
+        case DO_RESIZE_DI: d.resize((size_type)o.a, sbepp::default_init); break;
+        case DO_ASSIGN_N: d.assign((size_type)o.a, v); break;
+        case DO_ASSIGN_RANGE:
+            if(o.v & 1)
+                d.assign(CountingInputIt{0, o.v}, CountingInputIt{o.a, o.v});
+            else
+            {
+                V tmp[64];
+                const std::size_t k = (std::size_t)(o.a < 64 ? o.a : 64);
+                for(std::size_t i = 0; i < k; i++) tmp[i] = static_cast<V>(o.v + i);
+                d.assign(tmp, tmp + k);
+            }
+            break;
+        case DO_ASSIGN_IL: d.assign({v, static_cast<V>(o.v + 1)}); break;
+        case DO_ASSIGN_STRING:
+        {
+            char buf[72];
+            const std::size_t k = (std::size_t)(o.a < 64 ? o.a : 64);
+            std::memset(buf, 'a' + (o.v % 26), k);
+            buf[k] = 0;
+            const char* cstr = buf;
+            d.assign_string(cstr);
+            break;
+        }
+        case DO_ASSIGN_RANGE2:
+        {
+            std::vector<V> src;
+            for(u64 i = 0; i < o.a && i < 64; i++) src.push_back(static_cast<V>(o.v + i));
+            d.assign_range(src);
+            break;
+        }
+        case DO_CLEAR: d.clear(); break;
+        default: break;
+        }
+    }
+    rs.has_view = true;
+    rs.vsize = (u64)d.size();
+    rs.vhash = data_hash(d);
+    rs.has_bits = true;
+    rs.bits = ih;
+    rs.has_addr = true;
+    rs.addr_off = cx.off(sbepp::addressof(d));
+}
+template<class D>
 void data_op(Ctx& cx, D d)
 {
     const Req& rq = *cx.rq;
@@ -632,6 +746,19 @@ void data_op(Ctx& cx, D d)
     case D_ADDR:
         rs.has_addr = true;
         rs.addr_off = cx.off(sbepp::addressof(d));
+        break;
+    case D_INFO:
+        rs.has_addr = true;
+        rs.addr_off = cx.off(sbepp::addressof(d));
+        rs.has_view = true;
+        rs.vsize = (u64)d.size();
+        rs.vhash = data_hash(d);
+        break;
+    case D_HISTORY:
+        if constexpr(!is_ro<D>())
+            data_history(cx, d);
+        else
+            rs.unsupported = true;
         break;
     case D_SIZE:
         rs.has_bits = true;
@@ -1011,6 +1138,8 @@ void cursor_level(Ctx& cx, View v, Cursor& c, ScriptState& ss, u64 inst_start)
                             st.has_addr = true;
                             st.addr_off = cx.off(sbepp::addressof(g));
                             st.cursor_off = cx.off(c.pointer());
+                            st.has_view = true;
+                            st.vsize = (u64)g.size();
                         }
                         if(d.wrapper == W_PLAIN || d.wrapper == W_INIT)
                         {
@@ -1098,6 +1227,10 @@ void cursor_level(Ctx& cx, View v, Cursor& c, ScriptState& ss, u64 inst_start)
                         auto r = acc(v, std::forward<decltype(wc)>(wc));
                         st.has_addr = true;
                         st.addr_off = cx.off(sbepp::addressof(r));
+                        st.cursor_off = cx.off(c.pointer());
+                        st.has_view = true;
+                        st.vsize = (u64)r.size();
+                        st.vhash = data_hash(r);
                     }
                     st.cursor_off = cx.off(c.pointer());
                 });
@@ -1108,25 +1241,82 @@ void cursor_level(Ctx& cx, View v, Cursor& c, ScriptState& ss, u64 inst_start)
 }
 
 // ------------------------------------------------------------ real encoder
+// A producer as application code writes one: header fillers, setters, fill_group_header + entries,
+// data assign. Two styles: random access and the cursor idiom of the documentation. `budget` counts
+// writes; when it runs out the encoder stops where it is (a torn encode: the slot holds a prefix of the
+// producer's work over whatever was there before).
+struct EncBudget
+{
+    long long left; // < 0: unlimited
+    Res* rs;        // progress is published as it happens (it must be readable after a fault)
+    u64 done = 0;
+    bool take()
+    {
+        if(left == 0) return false;
+        if(left > 0) --left;
+        rs->has_bits = true;
+        rs->bits = ++done;
+        return true;
+    }
+};
+
+// One field written the way application code writes it: scalars / enums / sets through the setter, arrays
+// through the pointer data() hands out (it validates the whole array), composites member by member.
+template<class C, class CV>
+void put_composite(const SchemaShape& sh, CV cv, const CompShape& cs, const u8* src);
+
+template<class K, class Comp, class R>
+void put_view(const SchemaShape& sh, K, Comp, R r, const MemberShape& ms, const u8* src)
+{
+    if constexpr(K::value == K_ARRAY)
+    {
+        auto* dst = r.data();
+        if(ms.size) std::memcpy(dst, src, ms.size);
+    }
+    else
+    {
+        put_composite<typename Comp::type>(sh, r, sh.comps[(std::size_t)ms.comp], src);
+    }
+}
+
+template<class C, class CV>
+void put_composite(const SchemaShape& sh, CV cv, const CompShape& cs, const u8* src)
+{
+    for(int i = 0; i < C::n; i++)
+    {
+        const MemberShape& ms = cs.members[(std::size_t)i];
+        C::member(i, [&](auto k, auto comp, auto acc, auto) {
+            using K = decltype(k);
+            if constexpr(K::value == K_COMPOSITE || K::value == K_ARRAY)
+                put_view(sh, k, comp, acc(cv), ms, src + ms.offset);
+            else
+            {
+                using T = decltype(acc(cv));
+                acc(cv, make_value<T>(k, rd(src + ms.offset, (int)ms.size, sh.big)));
+            }
+        });
+    }
+}
+
 template<class L, class View>
-void encode_level(Ctx& cx, View v, const Node& n, const SchemaShape& sh)
+bool encode_level(Ctx& cx, View v, const Node& n, const SchemaShape& sh, EncBudget& bud)
 {
     const LevelShape& lv = sh.levels[(std::size_t)L::index];
+    bool go = true;
     // fields: written through the real setters, from the value bits the reference block carries
-    for(int i = 0; i < L::n_fields; i++)
+    for(int i = 0; i < L::n_fields && go; i++)
     {
         const MemberShape& ms = lv.fields[(std::size_t)i];
         L::field(i, [&](auto k, auto comp, auto acc, auto) {
             using K = decltype(k);
+            if(!bud.take())
+            {
+                go = false;
+                return;
+            }
             const u8* src = n.block.data() + ms.offset;
             if constexpr(K::value == K_COMPOSITE || K::value == K_ARRAY)
-            {
-                // views: copy the bytes through the view's own address (composites/arrays have member setters
-                // exercised elsewhere); keeps the encoder total over all shapes
-                auto r = acc(v);
-                std::memcpy(sbepp::addressof(r), src, ms.size);
-                (void)comp;
-            }
+                put_view(sh, k, comp, acc(v), ms, src);
             else
             {
                 using T = decltype(acc(v));
@@ -1134,34 +1324,117 @@ void encode_level(Ctx& cx, View v, const Node& n, const SchemaShape& sh)
             }
         });
     }
-    for(int gi = 0; gi < L::n_groups; gi++)
+    for(int gi = 0; gi < L::n_groups && go; gi++)
     {
         const GroupInst& gin = n.groups[(std::size_t)gi];
         L::group(gi, [&](auto child, auto flat, auto acc, auto) {
             using Child = typename decltype(child)::type;
+            if(!bud.take())
+            {
+                go = false;
+                return;
+            }
             auto g = acc(v);
             using size_type = typename decltype(g)::size_type;
             sbepp::fill_group_header(g, (size_type)gin.entries.size());
             std::size_t idx = 0;
             if constexpr(decltype(flat)::value)
             {
-                for(auto& en : gin.entries) encode_level<Child>(cx, g[(size_type)idx++], en, sh);
+                for(auto& en : gin.entries)
+                {
+                    if(!(go = encode_level<Child>(cx, g[(size_type)idx++], en, sh, bud))) return;
+                }
             }
             else
             {
-                for(auto it = g.begin(); it != g.end(); ++it) encode_level<Child>(cx, *it, gin.entries[idx++], sh);
+                for(auto it = g.begin(); it != g.end(); ++it)
+                {
+                    if(!(go = encode_level<Child>(cx, *it, gin.entries[idx++], sh, bud))) return;
+                }
             }
         });
     }
-    for(int di = 0; di < L::n_data; di++)
+    for(int di = 0; di < L::n_data && go; di++)
     {
         L::data(di, [&](auto acc, auto) {
+            if(!bud.take())
+            {
+                go = false;
+                return;
+            }
             auto d = acc(v);
             using V = typename decltype(d)::value_type;
             const auto& bytes = n.data[(std::size_t)di];
             d.assign(reinterpret_cast<const V*>(bytes.data()), reinterpret_cast<const V*>(bytes.data()) + bytes.size());
         });
     }
+    return go;
+}
+
+// The same producer in the cursor idiom: fields through plain cursor setters (views through the plain
+// cursor getter), `auto g = v.group(c); fill_group_header(g, n); for(e : g.cursor_range(c))`, data through
+// dont_move + assign followed by skip.
+template<class L, class View, class Cursor>
+bool encode_level_cursor(Ctx& cx, View v, Cursor& c, const Node& n, const SchemaShape& sh, EncBudget& bud)
+{
+    const LevelShape& lv = sh.levels[(std::size_t)L::index];
+    bool go = true;
+    for(int i = 0; i < L::n_fields && go; i++)
+    {
+        const MemberShape& ms = lv.fields[(std::size_t)i];
+        L::field(i, [&](auto k, auto comp, auto acc, auto) {
+            using K = decltype(k);
+            if(!bud.take())
+            {
+                go = false;
+                return;
+            }
+            const u8* src = n.block.data() + ms.offset;
+            if constexpr(K::value == K_COMPOSITE || K::value == K_ARRAY)
+                put_view(sh, k, comp, acc(v, c), ms, src);
+            else
+            {
+                using T = decltype(acc(v));
+                acc(v, make_value<T>(k, rd(src, (int)ms.size, sh.big)), c);
+            }
+        });
+    }
+    for(int gi = 0; gi < L::n_groups && go; gi++)
+    {
+        const GroupInst& gin = n.groups[(std::size_t)gi];
+        L::group(gi, [&](auto child, auto, auto acc, auto) {
+            using Child = typename decltype(child)::type;
+            if(!bud.take())
+            {
+                go = false;
+                return;
+            }
+            auto g = acc(v, c);
+            using size_type = typename decltype(g)::size_type;
+            sbepp::fill_group_header(g, (size_type)gin.entries.size());
+            std::size_t idx = 0;
+            for(auto e : g.cursor_range(c))
+            {
+                if(!(go = encode_level_cursor<Child>(cx, e, c, gin.entries[idx++], sh, bud))) return;
+            }
+        });
+    }
+    for(int di = 0; di < L::n_data && go; di++)
+    {
+        L::data(di, [&](auto acc, auto) {
+            if(!bud.take())
+            {
+                go = false;
+                return;
+            }
+            auto d = acc(v, sbepp::cursor_ops::dont_move(c));
+            using V = typename decltype(d)::value_type;
+            const auto& bytes = n.data[(std::size_t)di];
+            d.assign(reinterpret_cast<const V*>(bytes.data()), reinterpret_cast<const V*>(bytes.data()) + bytes.size());
+            acc(v, sbepp::cursor_ops::skip(c));
+        });
+    }
+    return go;
 }
 
 // ---------------------------------------------------------- level dispatch
@@ -1201,6 +1474,28 @@ void level_op(Ctx& cx, View v)
                     auto d = sbepp::get_by_tag<typename decltype(tag)::type>(v);
                     rs.has_addr = true;
                     rs.addr_off = cx.off(sbepp::addressof(d));
+                }
+                else if((rq.sub == D_HISTORY || rq.sub == D_INFO) && rq.arg != 0)
+                {
+                    // the same member obtained the other ways the generated code offers
+                    using TagT = typename decltype(tag)::type;
+                    if(rq.arg == 1)
+                        data_op(cx, sbepp::get_by_tag<TagT>(v));
+                    else
+                    {
+                        auto c = sbepp::init_cursor(v);
+                        if(rq.arg == 2)
+                            data_op(cx, acc(v, sbepp::cursor_ops::init(c)));
+                        else if(rq.arg == 3)
+                            data_op(cx, acc(v, sbepp::cursor_ops::init_dont_move(c)));
+                        else
+                        {
+                            if constexpr(has_get_by_tag_cursor<TagT, View&, decltype(sbepp::cursor_ops::init(c))>::value)
+                                data_op(cx, sbepp::get_by_tag<TagT>(v, sbepp::cursor_ops::init(c)));
+                            else
+                                rs.unsupported = true;
+                        }
+                    }
                 }
                 else
                     data_op(cx, acc(v));
@@ -1486,9 +1781,23 @@ void message_op(Ctx& cx, const SchemaShape& sh)
     case M_ENCODE:
     {
         const Node& root = *static_cast<const Node*>(rq.tree);
-        sbepp::fill_message_header(m);
-        encode_level<L>(cx, m, root, sh);
-        rs.size = sbepp::size_bytes(m);
+        EncBudget bud{rq.arg2 ? (long long)rq.arg2 - 1 : -1, &rs};
+        bool whole = false;
+        if(bud.take())
+        {
+            sbepp::fill_message_header(m);
+            if(rq.arg & 1)
+            {
+                auto c = sbepp::init_cursor(m);
+                whole = encode_level_cursor<L>(cx, m, c, root, sh, bud);
+                rs.cursor_off = cx.off(c.pointer());
+            }
+            else
+                whole = encode_level<L>(cx, m, root, sh, bud);
+        }
+        rs.valid = whole;
+        // the size the producer would report for what it wrote (only meaningful for a complete encode)
+        if(whole) rs.size = sbepp::size_bytes(m);
         break;
     }
     default: rs.unsupported = true;
